@@ -289,7 +289,20 @@ func (w *World) adapterError(P, rule string, pull *ssa.Function, method string) 
 	okRet := false
 	allInstrs(pull, func(in ssa.Instruction) {
 		ret, ok := in.(*ssa.Return)
-		if !ok || len(ret.Results) != 3 || ret.Results[2] != errV || !isNilConst(ret.Results[0]) {
+		if !ok || len(ret.Results) != 3 || !isNilConst(ret.Results[0]) {
+			return
+		}
+		// the decoder's error itself, or a variable that holds it unless it was replaced by another non-nil error on
+		// the way (EOF inside a container becomes ErrUnexpectedEOF)
+		carries := ret.Results[2] == errV
+		if phi, isPhi := ret.Results[2].(*ssa.Phi); isPhi {
+			for _, e := range phi.Edges {
+				if e == errV {
+					carries = true
+				}
+			}
+		}
+		if !carries {
 			return
 		}
 		for _, a := range guardAtoms(ret.Block()) {
